@@ -21,7 +21,7 @@ use pretty::RcDoc;
 
 use crate::token::regex_constants;
 
-use super::token::{Comment, WrappedToken};
+use super::token::{Comment, Token, WrappedToken};
 
 // Add brackets
 pub fn add_brackets<'a>(
@@ -123,6 +123,39 @@ pub fn get_comment_after_end<'src>(
     tokens: &mut [WrappedToken<'src>],
 ) -> Option<Comment<'src>> {
     Some(get_token_after_end(span, tokens)?.consume_comment())
+}
+
+/// The grammar allows a trailing comma after the last element of a list
+/// (`[1, 2,]`, `{a: 1,}`, `f(x,)`, `(principal, action, resource,)`), which the
+/// formatter does not print. If the token following `span` (the last element)
+/// is such a comma, consume and return its comment so that the caller can emit
+/// it after the last element; otherwise return an empty comment.
+pub fn get_trailing_comma_comment<'src>(
+    span: Option<miette::SourceSpan>,
+    tokens: &mut [WrappedToken<'src>],
+) -> Option<Comment<'src>> {
+    let span = span?;
+    let end = span.offset() + span.len();
+    Some(match tokens.iter_mut().find(|t| t.span.start >= end) {
+        Some(t) if t.token == Token::Comma => t.consume_comment(),
+        _ => Comment::default(),
+    })
+}
+
+/// Like `get_comment_after_end`, but skips over a trailing comma.
+pub fn get_comment_after_end_skipping_comma<'src>(
+    span: Option<miette::SourceSpan>,
+    tokens: &mut [WrappedToken<'src>],
+) -> Option<Comment<'src>> {
+    let span = span?;
+    let end = span.offset() + span.len();
+    match tokens
+        .iter_mut()
+        .find(|t| t.span.start >= end && t.token != Token::Comma)
+    {
+        Some(t) => Some(t.consume_comment()),
+        None => get_comment_after_end(Some(span), tokens),
+    }
 }
 
 pub fn get_comment_in_range<'src>(
